@@ -966,6 +966,20 @@ func runC03(p *Prog, r *Report) {
 	c03HelperErrorExits(p, r, "D3-omissions")
 	r.Rule("D4-no-shared-line-state", "a record's scratch state is not shared with the next record")
 	c03FreshLineBuffer(p, r, "D4-no-shared-line-state")
+	scratchSlicesAreEmptied(p, r, "D4-no-shared-line-state", p.FuncsIn(c03Packages...))
+	// requirements.txt: the decisions under which readLine gives a line up (answers "")
+	if rl := p.Func("extractor/filesystem/language/python/requirements", "readLine"); rl != nil {
+		frozenFnSkips(p, r, "D3-omissions", "requirements.readLine:ignored-lines", rl, func(in ssa.Instruction) bool {
+			ret, ok := in.(*ssa.Return)
+			if !ok || len(ret.Results) != 1 {
+				return false
+			}
+			s, isC := constString(retVal(ret, 0))
+			return !(isC && s == "")
+		}, c03ReadLineSkips, "READLINE", "a requirements line is given up under another test than the audited one (an environment variable in the line *after its comment was removed*): e.g. a `${VAR}` that only occurs in a trailing comment makes the requirement in front of it disappear")
+	} else {
+		r.Undecided("D3-omissions", "anchor:requirements.readLine", "-", "not found")
+	}
 	r.Rule("D5-nested-records", "nested dependency blocks are descended into for every entry that has one")
 	recursesIntoEveryChild(p, r, "D5-nested-records", "extractor/filesystem/language/javascript/packagelockjson", "parseNpmLockDependencies", "Dependencies", "an entry of a package-lock v1 `dependencies` block can be passed over (or the loop left) without its own nested `dependencies` having been parsed: every package installed beneath it is missing from the result")
 	// helper predicates that decide those branches: frozen truth tables
@@ -1193,6 +1207,11 @@ func c03Pending(p *Prog, r *Report) {
 }
 
 // c03Omissions: the frozen omission table over the package-producing loops of fns.
+// c03ReadLineSkips: when requirements.readLine answers "" (regenerate with SCALINT_LEARN=1).
+var c03ReadLineSkips = []string{
+	"(regexp.Regexp.FindString(reEnvVar,regexp.Regexp.ReplaceAllString(reComment,bufio.Scanner.Text(param0),\"\":string))!=\"\":string)",
+}
+
 func c03Omissions(p *Prog, r *Report, rule string, fns []*ssa.Function) {
 	learn := os.Getenv("SCALINT_LEARN") != ""
 	nloops := 0
